@@ -123,6 +123,37 @@ static void detect_arm_features(void) {
 
 #endif
 
+#ifdef CARQUET_VERIF
+#include <stdlib.h>
+/* Verification hook (compiled only with -DCARQUET_VERIF): the environment variable
+ * CARQUET_VERIF_CPU_CAP, when set, is a comma-separated list of the x86 features to KEEP
+ * (sse2,sse41,sse42,avx,avx2,avx512f,avx512bw,avx512vl,avx512vbmi; any other word, e.g. "none",
+ * keeps nothing).  Every detected feature that is not listed is cleared; a feature the CPU does not
+ * have is never added.  Applied once, at detection time, so the dispatcher sees the capped set. */
+static void carquet_verif_cap_cpu_features(void) {
+    const char* cap = getenv("CARQUET_VERIF_CPU_CAP");
+    if (!cap) return;
+    static const char* const names[9] = {"sse2", "sse41", "sse42", "avx", "avx2",
+                                         "avx512f", "avx512bw", "avx512vl", "avx512vbmi"};
+    bool* const fields[9] = {&g_cpu_info.has_sse2, &g_cpu_info.has_sse41, &g_cpu_info.has_sse42,
+                             &g_cpu_info.has_avx, &g_cpu_info.has_avx2, &g_cpu_info.has_avx512f,
+                             &g_cpu_info.has_avx512bw, &g_cpu_info.has_avx512vl,
+                             &g_cpu_info.has_avx512vbmi};
+    for (int f = 0; f < 9; f++) {
+        size_t n = strlen(names[f]);
+        int keep = 0;
+        for (const char* p = cap; *p; ) {
+            const char* e = strchr(p, ',');
+            size_t l = e ? (size_t)(e - p) : strlen(p);
+            if (l == n && memcmp(p, names[f], n) == 0) keep = 1;
+            p += l;
+            if (*p == ',') p++;
+        }
+        if (!keep) *fields[f] = 0;
+    }
+}
+#endif
+
 carquet_status_t carquet_init(void) {
     /* Fast path: already initialized */
     if (g_initialized) {
@@ -136,6 +167,10 @@ carquet_status_t carquet_init(void) {
     detect_x86_features();
 #elif defined(__aarch64__) || defined(_M_ARM64) || defined(__arm__) || defined(_M_ARM)
     detect_arm_features();
+#endif
+
+#ifdef CARQUET_VERIF
+    carquet_verif_cap_cpu_features();
 #endif
 
     /* Initialize compression lookup tables.
